@@ -18,6 +18,7 @@ import (
 	"fmt"
 	"math/big"
 	"sort"
+	"strings"
 	"sync"
 	"time"
 
@@ -79,6 +80,46 @@ type jcase struct {
 	OtherErr   string  `json:"impl_other_err,omitempty"`
 }
 
+// zfast renders an integer as a Gallina Z term.  Coq 8.16 elaborates a 19-digit decimal
+// literal in ~5 ms but the explicit binary constructor form in ~0.5 ms, which dominates the
+// run time of a shard (the judge itself runs in microseconds), so large values are written
+// as Zpos/Zneg constructor terms.
+func zfast(v *big.Int) string {
+	if v.IsInt64() && v.Int64() > -1000000 && v.Int64() < 1000000 {
+		if v.Sign() < 0 {
+			return fmt.Sprintf("(%d)%%Z", v.Int64())
+		}
+		return fmt.Sprintf("%d%%Z", v.Int64())
+	}
+	a := new(big.Int).Abs(v)
+	bits := a.Text(2)
+	var b strings.Builder
+	if v.Sign() < 0 {
+		b.WriteString("(Zneg ")
+	} else {
+		b.WriteString("(Zpos ")
+	}
+	// most significant bit is xH, innermost; least significant bit is the outermost constructor
+	for i := len(bits) - 1; i >= 1; i-- {
+		if bits[i] == '1' {
+			b.WriteString("(xI ")
+		} else {
+			b.WriteString("(xO ")
+		}
+	}
+	b.WriteString("xH")
+	b.WriteString(strings.Repeat(")", len(bits)))
+	return b.String()
+}
+func zz(v int64) string { return zfast(big.NewInt(v)) }
+func zzs(vs []int64) string {
+	xs := make([]string, len(vs))
+	for i, v := range vs {
+		xs[i] = zz(v)
+	}
+	return vh.List(xs)
+}
+
 func must(err error) {
 	if err != nil {
 		panic(err)
@@ -96,7 +137,7 @@ func newClient() *meta.Client {
 }
 
 func gterm(g jgroup) string {
-	return fmt.Sprintf("{| rg_id := %s; rg_end := %s; rg_del := %s; rg_shards := %s |}", vh.N(g.ID), vh.Z(g.End), vh.N(uint64(g.Del)), vh.Ns(g.Shards))
+	return fmt.Sprintf("{| rg_id := %s; rg_end := %s; rg_del := %s; rg_shards := %s |}", vh.N(g.ID), zz(g.End), vh.N(uint64(g.Del)), vh.Ns(g.Shards))
 }
 func gterms(gs []jgroup) string {
 	xs := make([]string, len(gs))
@@ -127,7 +168,7 @@ func runExpired(w *vh.W, c *jcase) {
 	for _, g := range rpi.DeletedShardGroups() {
 		c.Deleted = append(c.Deleted, g.ID)
 	}
-	t := fmt.Sprintf("(CExpired %s %s %s %s %s)", vh.Z(c.D), vh.Z(c.Now), gterms(c.Groups), vh.Ns(c.Expired), vh.Ns(c.Deleted))
+	t := fmt.Sprintf("(CExpired %s %s %s %s %s)", zz(c.D), zz(c.Now), gterms(c.Groups), vh.Ns(c.Expired), vh.Ns(c.Deleted))
 	w.Add(t, c, len(c.Groups) > 0 && c.D != 0, "")
 	w.Count("kind", "expired")
 	w.Count("expired_n", fmt.Sprint(len(c.Expired)))
@@ -296,7 +337,7 @@ func runService(w *vh.W, c *jcase) {
 	nexp := 0
 	for _, i := range order {
 		r := c.RPs[i]
-		rps = append(rps, fmt.Sprintf("{| rp_D := %s; rp_groups := %s |}", vh.Z(r.D), gterms(r.Groups)))
+		rps = append(rps, fmt.Sprintf("{| rp_D := %s; rp_groups := %s |}", zz(r.D), gterms(r.Groups)))
 		for _, g := range r.Groups {
 			if g.Del == 0 && r.D != 0 && g.End+r.D < 0 {
 				nexp++
@@ -399,7 +440,7 @@ func runWrite(w *vh.W, c *jcase) {
 	}
 	minb, derr := "None", "None"
 	if c.HasRet {
-		minb = vh.Some(vh.Z(c.M))
+		minb = vh.Some(zz(c.M))
 	}
 	if c.DroppedErr >= 0 {
 		derr = vh.Some(vh.N(uint64(c.DroppedErr)))
@@ -419,7 +460,7 @@ func runWrite(w *vh.W, c *jcase) {
 			}
 		}
 	}
-	t := fmt.Sprintf("(CWrite %s %s %s %s %s %s)", vh.Z(c.SGD), minb, vh.Zs(c.Pre), vh.Zs(c.Pts), vh.List(mt), derr)
+	t := fmt.Sprintf("(CWrite %s %s %s %s %s %s)", zz(c.SGD), minb, zzs(c.Pre), zzs(c.Pts), vh.List(mt), derr)
 	idx := w.Add(t, c, nold > 0 && nold < len(c.Pts), sig)
 	if c.OtherErr != "" {
 		w.Fail(idx, "WritePointsPrivileged returned an unexpected error: "+c.OtherErr, "")
